@@ -1,17 +1,70 @@
 import Nervus.Driver.Util
-import Nervus.Driver.OKey
-import Nervus.Driver.Value
-import Nervus.Driver.Sort
 import Nervus.Driver.Agg
+import Nervus.Driver.BTree
+import Nervus.Driver.Backup
+import Nervus.Driver.Bulk
+import Nervus.Driver.Capi
+import Nervus.Driver.CapiSched
+import Nervus.Driver.Capix
+import Nervus.Driver.Codec
+import Nervus.Driver.Crash
+import Nervus.Driver.Cypher
+import Nervus.Driver.Cypher14
+import Nervus.Driver.CypherUpdate
+import Nervus.Driver.Engine
+import Nervus.Driver.ExtId
+import Nervus.Driver.Handles
+import Nervus.Driver.Hnsw
+import Nervus.Driver.HostCrash
+import Nervus.Driver.Index
+import Nervus.Driver.Locks
+import Nervus.Driver.OKey
+import Nervus.Driver.Pager
+import Nervus.Driver.PlanOps
+import Nervus.Driver.SnapSched
+import Nervus.Driver.Sort
+import Nervus.Driver.Vacuum
+import Nervus.Driver.Value
+import Nervus.Driver.WalFrame
 open Nervus.Driver
 
-/-- stream registry: one line per stream (kept one-per-line so that merges are unions) -/
-def streams : List (String × Stream) := [
-  ("okey", OKeyStream.stream),
-  ("value", ValueStream.stream),
-  ("sort", SortStream.stream),
-  ("agg", AggStream.stream)
-]
+/-- stream registry: one self-contained line per stream (merges are unions; run tools/fixmain.py after a merge) -/
+def streams : List (String × Stream) := ([] : List (String × Stream))
+  |>.cons ("okey", OKeyStream.stream)
+  |>.cons ("codec", CodecStream.stream)
+  |>.cons ("walframe", WalFrameStream.stream)
+  |>.cons ("capi_sched", CapiSchedStream.stream)
+  |>.cons ("locks", LocksStream.stream)
+  |>.cons ("handles", HandlesStream.stream)
+  |>.cons ("snapsched", SnapSchedStream.stream)
+  |>.cons ("backup", BackupStream.stream)
+  |>.cons ("query", CypherStream.stream)
+  |>.cons ("querystat", CypherStream.statStream)
+  |>.cons ("update", UpdateStream.stream)
+  |>.cons ("btree", BTreeStream.stream)
+  |>.cons ("pager", PagerStream.stream)
+  |>.cons ("vacuum", VacuumStream.stream)
+  |>.cons ("plan", PlanStream.stream)
+  |>.cons ("planlim", PlanStream.stream)
+  |>.cons ("planwhere", PlanStream.stream)
+  |>.cons ("value", ValueStream.stream)
+  |>.cons ("sort", SortStream.stream)
+  |>.cons ("agg", AggStream.stream)
+  |>.cons ("index", IndexStream.stream)
+  |>.cons ("hnsw", HnswStream.stream)
+  |>.cons ("engine", EngineStream.stream)
+  |>.cons ("engine_reopen", EngineStream.streamReopen)
+  |>.cons ("engine_compact", EngineStream.streamCompact)
+  |>.cons ("engine_abort", EngineStream.streamAbort)
+  |>.cons ("bulk", BulkStream.stream)
+  |>.cons ("cypher14", Cypher14.stream)
+  |>.cons ("extid", ExtIdStream.stream)
+  |>.cons ("capi", CapiStream.stream)
+  |>.cons ("capiryw", CapiStream.streamRyw)
+  |>.cons ("capix", CapixStream.stream)
+  |>.cons ("hostcrash", HostCrashStream.stream)
+  |>.cons ("crash", CrashStream.stream)
+  |>.cons ("fault", CrashStream.faultStream)
 
 def main (args : List String) : IO UInt32 := do
   match args with
